@@ -147,7 +147,7 @@ def main(tier: str, seed: int) -> int:
         chk.add_case({"door": door, "ops": tr["stimulus"]["ops"]},
                      nontrivial=any(o[0] in ("DeleteFile", "DeleteFolder") for o in tr["stimulus"]["ops"]))
     res = tlc.validate("FileSystemTrace", traces, chunk=100)
-    common.judge_traces(chk, "FileSystem", traces, res, sig_fn)
+    common.judge_traces(chk, "FileSystem", traces, res, sig_fn, selftest="FileSystemTrace")
     for tr in traces[1:3]:
         chk.sample({"door": tr["meta"]["door"], "ops": tr["stimulus"]["ops"][:8], "last_event": tr["ev"][-1] if tr["ev"] else None})
     chk.assumptions += [
